@@ -12,7 +12,8 @@ def run(rep):
     compilerp.fresh_state_obligations(rep)
     # within one instance: simultaneously suspended queries share no variable through a stored fact (C13's contracts)
     from . import enginep
-    enginep.engine_deductive(rep, enginep.COPY_FUNS + ['engine.YP.assert_fact'])
+    # evaluate_bounded's TEMPORARY limit is outside the statement; that the interpreter-wide limit is back on every exit edge is not
+    enginep.engine_deductive(rep, enginep.COPY_FUNS + ['engine.YP.assert_fact', 'engine.YP.evaluate_bounded'])
     # "create atoms": the atom table is per instance, private to atom(), and atom() changes nothing but its own key
     enginep.atom_table_deductive(rep)
     q = rep.tier == 'quick'
